@@ -17,11 +17,13 @@ TRUSTED = [
     "result is exactly the listed symptom; anything else inside a known class is a VIOLATION",
 ]
 ASSUMPTIONS = [
-    "parserinfo._year is read back from the implementation for the expectations; that it IS the current year (and _century its "
-    "century) is checked once per run on a freshly built parserinfo",
+    "the two-digit-year pivot of the expectations and of the model comes from the process clock (_parser_lib.model_pivot), not "
+    "from parserinfo._year; that a freshly built parserinfo and DEFAULTPARSER.info carry the current year and its century is "
+    "checked on every run (here and by pivot_oracle in C14/C15)",
     "a year, an AM/PM marker or an `s` unit is separated from a following offset / Z by a space (part of the templates)",
-    "a zero-offset rendering must come back with utcoffset 0 under EVERY process zone; where the process zone is called UTC but "
-    "is elsewhere (TZ=UTC+3) the implementation fails this: known finding D-C02-local-zone-named-utc",
+    "a zero-offset rendering must come back with utcoffset 0 under EVERY process zone, also where the process zone is merely "
+    "CALLED UTC / GMT but is elsewhere (TZ=UTC+3, GMT-2, XXX0UTC,M3.5.0,M10.5.0): the repaired D-C02-local-zone-named-utc, kept as a "
+    "regression stream (TZ_NAMED in correspondence and oracle)",
 ]
 RULE = ("48 templates (ISO-like T/space, 1-6 fraction digits dot/comma, compact 8/12/14 digits, ctime, RFC 2822, month-name forms, "
         "NNhNNmNNs, US/European/year-first numeric under the matching flags, 12-hour forms incl. 12 AM/12 PM, two-digit years) "
@@ -62,11 +64,11 @@ def call_of(t, d, off):
 def correspondence(ctx):
     basecorr.run(ctx)
     from dateutil.parser import _parser
-    year_now = _parser.DEFAULTPARSER.info._year
+    year_now = L.model_pivot(_parser.DEFAULTPARSER.info)[0]      # from the process clock (review3b F8)
     rng = ctx.subrng("corr")
     prev = L.set_tz("UTC")
     try:
-        for tzenv in (TZ_ALL if ctx.budget(0, 1) else ["UTC", "America/New_York", "UTC+3"]):
+        for tzenv in (TZ_ALL if ctx.budget(0, 1) else ["UTC", "America/New_York", "UTC+3", "XXX0UTC,M3.5.0,M10.5.0"]):
             L.set_tz(tzenv)
             cs = cases(rng, ctx.budget(6000, 60000), year_now)
             calls = [call_of(t, d, off) for t, d, off in cs]
@@ -301,6 +303,15 @@ def classify_failure(t, d, off, exp, ans, model, got, year_now):
     from dateutil import tz
     if ans == model == "err ParserError" and t['name'].startswith('hms_letters_') and t['name'][-1] in "35":
         return "D-C02-hms-fraction-token-length"        # exactly: rejected, model agrees, 3 or 5 fraction digits after NNhNNmNN
+    if ans == model == "err OverflowError" and off is not None and G.offset_seconds(off) == 0 and "UTC" in _time.tzname:
+        # D-C02-tzlocal-calendar-edge: exactly — zero offset under a zone called UTC, and the zone object's own tzname() overflows at
+        # the expected wall time (within the DST saving of datetime.min / max)
+        try:
+            exp.replace(tzinfo=tz.tzlocal()).tzname()
+            exp.replace(tzinfo=tz.tzlocal(), fold=1).tzname()
+        except OverflowError:
+            return "D-C02-tzlocal-calendar-edge"
+        return None
     if ans != model or not ans.startswith("ok ") or got is None:
         return None
     naive = got.replace(tzinfo=None)
@@ -312,19 +323,14 @@ def classify_failure(t, d, off, exp, ans, model, got, year_now):
         ids.append("D-C02-monthname-century")
     if naive != want:
         return None
-    # zone: as rendered, or D-C02-local-zone-named-utc: zero offset rendered, the process zone is CALLED UTC but is not at
-    # offset zero at that wall time, and the result is exactly in the process zone
+    # zone: exactly as rendered (D-C02-local-zone-named-utc is repaired: a zero offset under a zone merely called UTC is no
+    # longer excused)
     if off is None:
         zone_ok = got.tzinfo is None
     else:
         zone_ok = got.tzinfo is not None and got.utcoffset() == datetime.timedelta(seconds=G.offset_seconds(off))
     if not zone_ok:
-        if not (off is not None and G.offset_seconds(off) == 0 and "UTC" in _time.tzname and isinstance(got.tzinfo, tz.tzlocal)):
-            return None
-        lo = got.utcoffset()
-        if lo is None or lo == datetime.timedelta(0) or lo != naive.replace(tzinfo=tz.tzlocal()).utcoffset():
-            return None
-        ids.append("D-C02-local-zone-named-utc")
+        return None
     return "+".join(ids) if ids else None
 
 
@@ -332,7 +338,7 @@ def oracle(ctx):
     import time as _time
     from dateutil import parser as P
     from dateutil.parser import _parser
-    year_now = _parser.DEFAULTPARSER.info._year
+    year_now = L.model_pivot(_parser.DEFAULTPARSER.info)[0]      # from the process clock, not from the object (review3b F8)
     # ---- "of the current year": a freshly built parserinfo really uses this year (New-Year race tolerated) and the century
     #      that belongs to it; DEFAULTPARSER's may be older only by a process that lived through New Year
     y0 = datetime.datetime.now().year
@@ -424,8 +430,14 @@ def oracle(ctx):
         ctx.sample({"text": "Wed May 28 23:52:59 0031", "finding": "D-C02-monthname-century",
                     "impl": L.run_impl(L.Call("Wed May 28 23:52:59 0031", default=datetime.datetime(2001, 1, 1)))[0]})
         L.set_tz("UTC+3")
+        wans, _, wgot = L.run_impl(L.Call("2003-09-25T10:49:41+00:00"), raw=True)
+        ctx.case(("witness", "D-C02-local-zone-named-utc"))
         ctx.sample({"text": "2003-09-25T10:49:41+00:00", "TZ": "UTC+3", "time.tzname": list(_time.tzname),
-                    "finding": "D-C02-local-zone-named-utc", "impl": L.run_impl(L.Call("2003-09-25T10:49:41+00:00"))[0]})
+                    "repaired": "D-C02-local-zone-named-utc", "impl": wans})
+        if not (wans.startswith("ok ") and wgot.utcoffset() == datetime.timedelta(0)):
+            wc = L.Call("2003-09-25T10:49:41+00:00").describe()
+            wc.update({"template": "iso_T", "datetime": "2003-09-25T10:49:41", "offset": "+00:00"})
+            ctx.violation("parse(render(dt)) != the datetime rendered", wc, {"impl": wans, "expected": "2003-09-25T10:49:41+00:00"})
         L.set_tz("UTC")
         for x in samples:
             ctx.sample(x)
@@ -441,7 +453,7 @@ def _known(kid):
 
 KNOWN = {"D-C02-hms-fraction-token-length": _known("D-C02-hms-fraction-token-length"),
          "D-C02-monthname-century": _known("D-C02-monthname-century"),
-         "D-C02-local-zone-named-utc": _known("D-C02-local-zone-named-utc")}
+         "D-C02-tzlocal-calendar-edge": _known("D-C02-tzlocal-calendar-edge")}
 
 
 def replay(ctx, payload):
